@@ -149,6 +149,21 @@ PROPS = {
   'sim': ['simsock', 'fakecurl', 'simclock'],
   'essential_classes': ['request:enclose', 'request:untrusted-alg', 'unmodified', 'altered:rejected', 'path:parse+verify', 'path:blocking-client', 'path:async-service', 'kind:aggregation', 'kind:extension', 'kind:aggr-config', 'kind:ext-config', 'pdu:v1', 'pdu:v2', 'keylen:64', 'keylen:128', 'keylen:129'],
   'assumptions': ['reference HMAC correct (known-answer vectors)'],
+ }, 'C08': {
+  'technique': 'model-based property testing (rapidcheck): reference extender over a coherent simulated calendar with a reply-deviation catalogue; results decoded and evaluated by the reference model',
+  'level_text': 'Reference-built signatures (without / with calendar chain, publication or authentication record, RFC3161 record) are extended through extendTo (head, equal, later, earlier), extend with a supplied publication record and the asynchronous service, '
+                'over simulated TCP/HTTP, against a reference extender whose calendar is coherent (chains for one leaf and different publication times share their right links exactly as real calendars do) and which answers correctly or with one of 17 deviations. '
+                'Success is accepted only for a reply that satisfies the reference conditions (own id, status zero, requested times, consistent shape, input = aggregation root, shared right links equal); the result must keep the aggregation chains byte-identical, carry exactly the replied chain '
+                'and the supplied publication record only, verify by the reference evaluation for the same document and time; the source serialization must be unchanged; correct replies must succeed.',
+  'level_note': 'Trusted: ref/chain.cpp coherent calendar (prefix property of right links brute-force checked), ref/sigmodel.cpp, ref/pdu.cpp, sim/. KSI_extendSignature (nearest publication from the publications file) is exercised with the publications-file environment of C04/C18.',
+  'rule': 'rapidcheck choice strings -> (source kind, API, transport, PDU version, target class, reply deviation, status, supplied publication record right/wrong). Non-trivial = a reply deviation or a source that already has a calendar chain; '
+          'distinct = distinct (API, transport, version, source kind, target, reply class).',
+  'quick': {'cases': 6400, 'max_size': 300, 'wall_s': 900},
+  'thorough': {'cases': 128000, 'max_size': 400, 'wall_s': 3000},
+  'sim': ['simsock', 'fakecurl', 'simclock'],
+  'essential_classes': ['reply:correct', 'reply:wrong-id', 'reply:no-status-wrong-id', 'reply:right-link-altered', 'altered:shared-right-link', 'altered:last-shared-right-link', 'reply:other-input-hash', 'reply:shape-flip', 'reply:other-aggr-time', 'api:async', 'api:extend(pubRec)', 'api:extendTo',
+                        'src:nocal', 'src:cal+pub', 'src:cal+auth', 'target:earlier', 'target:head', 'outcome:success', 'outcome:error'],
+  'assumptions': ['simulated calendar is coherent in the way real calendars are (left subtrees never change)'],
  },
 }
 
